@@ -1216,7 +1216,7 @@ def rule_sites(chk, ecx):
                 n += 1
                 owner = b.get("parent") or b["path"]
                 users[short(owner)] = users.get(short(owner), 0) + 1
-    chk.floor("C13.floor/sites", n, 14, "call sites of evaluate_constexpr in the typer", where(ecx))
+    chk.floor("C13.floor/sites", n, 10, "call sites of evaluate_constexpr in the typer", where(ecx))
     # the positions that demand a constant reach the evaluator (call graph)
     cg = M.CallGraph(f)
     needs = {
